@@ -213,17 +213,11 @@ Definition c5_sig_loststart (k : kind) (s : c5_ostep) : bool :=
   | _ => false
   end.
 
-(* start-at-end-instant: Downtime::Start or the start timer run at exactly end_time of a fixed downtime
-   (CanBeTriggered is true at end_time although the downtime is no longer in effect) *)
-Definition c5_sig_endinstant (s : c5_ostep) : bool :=
-  match c5_op s with
-  | OpDtAdd _ fixed _ end_ _ _ _ _ => fixed && (c5_now s =? end_)
-  | OpDtStartTimer => existsb (fun d => d_fixed d && (c5_now s =? d_end d)) (c5_pre s)
-  | _ => false
-  end.
+(* (start-at-end-instant - CanBeTriggered was true at exactly now = end_time of an already triggered fixed
+   downtime, which was announced again - was fixed in /repo 51cd8e9) *)
 
 Definition c5_sig_any (k : kind) (s : c5_ostep) : bool :=
-  c5_sig_loststart k s || c5_sig_endinstant s.
+  c5_sig_loststart k s.
 
 (* ---- the observation record of one step of the MODEL ---- *)
 Definition c5_mk (c : fcfg) (now : Z) (f : full) (o : op) : c5_ostep :=
@@ -242,11 +236,10 @@ Fixpoint c5_model_trace (c : fcfg) (f : full) (h : list (Z * op)) : list c5_oste
   | (now, o) :: rest => c5_mk c now f o :: c5_model_trace c (fst (full_step c now f o)) rest
   end.
 
-(* which recorded finding explains a failing check (0 = none): 2 lost-start, 3 start-at-end-instant
-   (1 was pending-flexible, fixed) *)
+(* which recorded finding explains a failing check (0 = none): 2 lost-start
+   (1 was pending-flexible, 3 was start-at-end-instant; both fixed) *)
 Definition c5_explained (k : kind) (s : c5_ostep) (n : Z) : Z :=
   if (n =? 9) && c5_sig_loststart k s then 2
-  else if (n =? 9) && c5_sig_endinstant s then 3
   else 0.
 
 (* ---- the oracle: every failing (step index, check number, explaining finding); [] = the trace
